@@ -12,7 +12,7 @@ def _variants(case):
     order = sorted(range(len(nodes)), key=lambda i: -nodes[i].get('depth', i))
     for i in sorted(range(len(nodes)), reverse=True):
         d = nodes[i]
-        if not d['args']:
+        if not d['args'] or d['op'] == 'loopindex':
             continue
         # bypass: replace by a child of identical type
         for a in d['args']:
